@@ -361,7 +361,11 @@ static void CodeCASE(void) {
 }
 
 static void CodeELSECASE(void) {
-    if (ChkArgCnt(0, 0)) {
+    if (!ChkArgCnt(0, 0))
+        ;
+    else if (!FirstIfSave) {
+        WrError(ErrNum_MissingIf);
+    } else {
         if ((FirstIfSave->State != IfState_CASESWITCH)
             && (FirstIfSave->State != IfState_CASECASE)) {
             WrError(ErrNum_InvIfConst);
